@@ -178,6 +178,8 @@ export class Interp {
         const value = this.leaf(d.target);
         let name = 'modelValue';
         if (d.arg) name = d.arg.k === 'leaf' ? this.leaf(d.arg.i) : d.arg.v;
+        // a computed argument is evaluated once per generated prop key: the value prop, the listener, and the modifiers prop if any
+        if (d.arg && d.arg.k === 'leaf' && isComp) { const more = 1 + ((d.mods || []).length > 0 ? 1 : 0); for (let k = 0; k < more; k++) this.leaf(d.arg.i); }
         return { value, name };
       }
       case 'vslots': return {};
